@@ -4,8 +4,12 @@ use crc::{Crc, CRC_32_ISCSI};
 use std::{
     fmt::{self, Debug, Formatter},
     net::SocketAddrV4,
-    time::Instant,
 };
+
+#[cfg(mainline_verif)]
+use crate::verif::Instant;
+#[cfg(not(mainline_verif))]
+use std::time::Instant;
 
 use tracing::trace;
 
